@@ -10,7 +10,9 @@ RULE = (
     "Histories on solvers created with track=True (Solver, SolverComposite, SolverHybrid): constraints are added in generated orders "
     "until the brute-force model set is empty (pairwise contradictions such as x==1, x==2 that trigger the cheap contradiction cache, "
     "contradictions needing three constraints, contradictions inside one add([...]), contradictions spread over two composite "
-    "children, false itself), with queries, branch and unsat_core() calls interleaved - also on satisfiable solvers and with extra "
+    "children, false itself), with queries, branch and unsat_core() calls interleaved; half of the shards run directed histories "
+    "(nine contradiction families, members batched or one per add among satisfiable bystanders, a query and / or up to two branches "
+    "before the last member, unsat_core() on every live solver twice and after a further add) - also on satisfiable solvers and with extra "
     "constraints. Oracle: satisfiable => empty result; unsatisfiable => a sequence whose every element is a claripy Bool that was "
     "passed to add() on that solver (or is one of the extras), and whose conjunction has an empty model set by brute force. "
     "Non-trivial: unsat_core() called on a solver whose model set is empty; distinct by SHA-1 of the history."
@@ -35,7 +37,10 @@ def nontrivial(res):
 
 
 def run_shard(shard, ctx):
-    sp.run_random(shard, ctx, GROUPS_A if shard["i"] % 2 == 0 else GROUPS_B, nontrivial, owns=owns)
+    from .. import solver_machine as sm
+
+    # odd shards: directed histories (every route to unsatisfiability x batching x query / branch before the last member)
+    sp.run_random(shard, ctx, GROUPS_A if shard["i"] % 4 == 0 else GROUPS_B, nontrivial, owns=owns, strategy=sm.scenario_core() if shard["i"] % 2 == 1 else None)
 
 
 def replay(case):
